@@ -30,6 +30,12 @@ RULE = ("request lines fed to the real server-side handler over one manager life
         "Oracle: exactly one newline-terminated line holding a JSON object with an int "
         "errorcode, no exception leaves the handler, within a logical step budget. distinct = "
         "(class, command, hostile leaf kind)")
+RULE_ADDED = (
+              'Also: every JSON nesting depth 900..2600 (thorough 1..6000) in three shapes with '
+              'logging configured as the shipped logging.cfg; look-alike characters in every string '
+              'leaf; hostile compressed-coinbase fields; a device that hands out a fresh well-formed '
+              'signature of any shape per request ')
+RULE = RULE + " " + RULE_ADDED.strip()
 ASSUMPTIONS = [
     "simulated device keeps to its protocol (firmware-like chunking, well-formed answers)",
     "lines up to 16 MiB (thorough) / 1 MiB (quick); memory-exhaustion inputs are out of budget",
